@@ -231,6 +231,11 @@ def fanout_missing(f, reqs, status):
     need_lookupd = None       # substring of the command every configured nsqlookupd must have received
     if f["m"] == "POST" and len(segs) == 2:            # create topic [+ channel]
         need_lookupd = "/topic/create?"
+        if not lk and status == 200 and not posts:
+            # audit C15: the relevant upstreams of a create are the configured nsqds when there is no nsqlookupd
+            return ("%s with an admin identity in direct-nsqd mode (no nsqlookupd configured; nsqds %s) answered 200%s, "
+                    "but no request was sent to anybody: the topic was created nowhere" % (
+                        where, ",".join(na) or "-", " and announced it" if f.get("notify") == "1" else ""))
         if unhex(f.get("bchan", "-")) == "":
             lookup_ok, prods = True, set()
         else:
@@ -485,7 +490,7 @@ def run(ctx):
                         ctx.count_case(o)
                         bad = property_fails_on(o, i)
                         if bad:
-                            ctx.violation(key_of(o), bad, "op: %s\nimpl: %s\n" % (o, i))
+                            ctx.violation(key_of(o, bad), bad, "op: %s\nimpl: %s\n" % (o, i))
                 continue
             for o, i in zip(ops, impl):
                 ctx.count_case(o, nontrivial=o.startswith("fan ") or (" m=GET " not in o) or " p=636f6e666967," in o)
@@ -495,7 +500,7 @@ def run(ctx):
             for idx, (o, i) in enumerate(zip(ops, impl)):
                 bad = property_fails_on(o, i) or cidr_oracle(o, i)
                 if bad:
-                    ctx.violation(key_of(o), bad, "request: %s\nop: %s\nimpl: %s\n" % (describe_op(o), o, i))
+                    ctx.violation(key_of(o, bad), bad, "request: %s\nop: %s\nimpl: %s\n" % (describe_op(o), o, i))
             diffs = ctx.diff_lines(impl, model, name)
             for idx, a, b in diffs:
                 ctx.log("model/impl disagree on `%s`:\n   impl=%s\n  model=%s" % (ops[idx][:400], a, b))
@@ -521,8 +526,10 @@ def run(ctx):
                                  "that was answered other than 403 or reached an upstream" % ctx.evaluations)
 
 
-def key_of(op):
+def key_of(op, bad=""):
     """Finding key: the route shape of a gate request, the method of a direct ClusterInfo call."""
+    if bad and "in direct-nsqd mode" in bad and "created nowhere" in bad:
+        return "fanout:create-direct-mode"
     if op.startswith("fan "):
         return "fanout:" + dict(t.partition("=")[::2] for t in op.split()[1:]).get("kind", "?")
     if op.startswith("strfn "):
